@@ -154,6 +154,13 @@ pub fn cases(prop: &str, tier: Tier, seed: u64) -> Vec<CaseDesc> {
             for (n, b) in [(64, 60), (127, 127), (128, 128), (500, 129), (2000, 60)] {
                 base.push(format!("leb:{}:{}:{}", n, b, seed % 7));
             }
+            // function entries beyond 32 KiB and 64 KiB (buffer growth and reuse in the per-function work)
+            base.push("lebb:6:60:70000".to_string());
+            base.push("lebb:3:20:40000".to_string());
+            if !q {
+                base.push("lebb:24:300:70000".to_string());
+                base.push("lebb:2:10:2200000".to_string());
+            }
             base.extend(corpus::real_specs());
             base.extend(corpus::fixture_specs(false).into_iter().filter(|s| s.contains("many") || s.contains("fac") || s.contains("call")));
             // invalid bodies at some indices: accept/reject must agree too
@@ -176,12 +183,12 @@ pub fn cases(prop: &str, tier: Tier, seed: u64) -> Vec<CaseDesc> {
             for b in &bases {
                 for (ver, mode) in [(4, "f"), (5, "f"), (4, "s"), (5, "s"), (5, "z")] {
                     let spec = format!("dwarf:{}:{}:{}", ver, mode, b);
-                    let scn = match i % 4 { 0 => "rt:emit;cfg=27", 1 => "rt:emit,gc;cfg=27", 2 => "rt:emit,ins;cfg=27", _ => "rt:emit,addfn;cfg=27" };
+                    let scn = match i % 5 { 0 => "rt:emit;cfg=27", 1 => "rt:emit,gc;cfg=27", 2 => "rt:emit,ins;cfg=27", 3 => "rt:emit,addfn;cfg=27", _ => "rt:emit,reedit;cfg=27" };
                     i += 1;
                     out.push(CaseDesc { spec: spec.clone(), scenario: scn.to_string() });
                     if b.starts_with("leb:") {
                         // census: every scenario on every boundary module
-                        for s in ["rt:emit;cfg=27", "rt:emit,gc;cfg=27", "rt:emit,ins;cfg=27", "rt:emit,addfn;cfg=27"] {
+                        for s in ["rt:emit;cfg=27", "rt:emit,gc;cfg=27", "rt:emit,ins;cfg=27", "rt:emit,addfn;cfg=27", "rt:emit,reedit;cfg=27"] {
                             if s != scn {
                                 out.push(CaseDesc { spec: spec.clone(), scenario: s.to_string() });
                             }
@@ -263,7 +270,7 @@ pub fn cases(prop: &str, tier: Tier, seed: u64) -> Vec<CaseDesc> {
             dw.extend(g("tiny", 30, 400));
             for (i, b) in dw.iter().enumerate() {
                 let spec = format!("dwarf:{}:{}:{}", 4 + (i % 2), ["f", "s", "z"][i % 3], b);
-                out.push(CaseDesc { spec, scenario: "rt:emit,emit2,fix;cfg=27".to_string() });
+                out.push(CaseDesc { spec, scenario: "rt:emit,emit2,fix,reedit;cfg=27".to_string() });
             }
         }
         "C12" => {
